@@ -51,14 +51,17 @@ class StallingRaw(io.RawIOBase):
         return n
 
 
-def record_write_run(integ, entry, ptype, stmts, fs, preset):
-    """Run one real serializer pipeline; returns the event log."""
+def record_write_run(integ, entry, ptype, stmts, fs, preset, explicit_flow=False):
+    """Run one real serializer pipeline; returns the event log.
+    explicit_flow: the frame size is configured through an explicit FrameFlow object in SerializerOptions.flow (options.frame_size stays 250)."""
     mod = __import__(f"pyjelly.integrations.{integ}.serialize", fromlist=["stream_frames"])
     events = []
     state = {"pulled": 0, "stream": None, "gen": None, "seen_rows": 0, "frame_rows": 0, "enc_done": 0, "enrolled": False}
     sclass = "triple" if ptype == 1 else "quad"
     cfg = impl.default_cfg(integ=integ, sclass=sclass, ltype=(1 if ptype == 1 else 2), delimited=True, frame_size=fs, preset=preset,
                            gen=(integ == "generic"), star=(integ == "generic"))
+    if explicit_flow:
+        cfg.update(flow=("flat_triples" if ptype == 1 else "flat_quads"), options_frame_size=250)
 
     def the_stream():
         if state["stream"] is not None:
@@ -163,15 +166,16 @@ def main(tier: str) -> int:
                 for fs in (1, 2, 3, 4, 250):
                     for integ in (("generic", "rdflib") if uni.startswith("r11") else ("generic",)):
                         entry = ("flat_stream_to_frames", "stream_frames")[(bi + fs) % 2]
+                        explicit = (bi + n) % 3 == 0 and fs != 250
                         try:
-                            ev = record_write_run(integ, entry, c["PType"], stmts, fs, (c["MaxN"], c["MaxP"], c["MaxD"]))
+                            ev = record_write_run(integ, entry, c["PType"], stmts, fs, (c["MaxN"], c["MaxP"], c["MaxD"]), explicit_flow=explicit)
                         except Exception as ex:  # noqa: BLE001
                             run.violation({"side": "write", "clause": "pipeline-raised", "integ": integ, "entry": entry}, f"{type(ex).__name__}: {ex}",
                                           {"statements": stmts, "frame_size": fs})
                             continue
                         tid += 1
                         groups.setdefault((fs, n, "TRUE" if entry == "stream_frames" else "FALSE"), []).append({"id": tid, "events": ev})
-                        metas[tid] = ({"side": "write", "integ": integ, "entry": entry, "ptype": c["PType"], "frame_size": fs},
+                        metas[tid] = ({"side": "write", "integ": integ, "entry": entry, "ptype": c["PType"], "frame_size": fs, "explicit_flow": explicit},
                                       {"statements": stmts, "frame_size": fs, "events": ev})
 
     # statements that each need MANY rows (every term a fresh IRI in an unseen namespace; quoted triples), with larger frame sizes:
